@@ -393,6 +393,26 @@ def check_case(ctx, case):
             o, lg, _ = run_pwd(t, case["salt"], fired=fired if not outs else None, **kw)
         outs.append(o)
         logs.append(lg)
+    if case["sseed"] % 6 == 1 and not via_files and outs[0] == outs[1]:
+        # the same documents once more with the secret ALSO named in the sensitive-word list of its run (an operator who lists
+        # a password as a word to be safe): the password stage has already removed it, so what comes out still says nothing
+        # about the secret - in particular no pseudonym derived from its text
+        words = []
+        for k in (0, 1):
+            cand = [sec["text"] for sid, sec in sorted(vals[k].items())
+                    if sec.get("text") and len(sec["text"]) >= 6 and sec["text"].isalnum() and not sec["text"].isdigit()
+                    and sec["text"].lower() not in outs[k].lower()]
+            words.append(cand[:1])
+        if words[0] and words[1]:
+            o = [run_pwd(texts[k], case["salt"], sensitive_words=list(words[k]), **kw)[0] for k in (0, 1)]
+            ctx.count("documents_rerun_with_the_secret_listed_as_a_sensitive_word")
+            if o[0] != o[1]:
+                a, b = o[0].split("\n"), o[1].split("\n")
+                i = next((j for j in range(min(len(a), len(b))) if a[j] != b[j]), 0)
+                ctx.violation(case, "secret-listed-as-word:output-depends-on-secret",
+                              "with the secret also listed as a sensitive word the output depends on its content: line %d: %r vs %r"
+                              % (i, a[i] if i < len(a) else None, b[i] if i < len(b) else None))
+                return
     for gi in fired["set"]:
         ctx.setadd("pattern_groups_fired", "%02d" % gi)
     if fired["n"]:
